@@ -23,7 +23,7 @@ import (
 )
 
 var (
-	countAlpha = []uint64{0, 1, 2, 10, 1000}
+	countAlpha = []uint64{0, 1, 2, 10, 1000, 300_000_000_000_000_000} // the last: 100 x count no longer fits 64 bits
 	durAlpha   = []time.Duration{0, 1, time.Millisecond, time.Hour}
 	elapsed    = []time.Duration{0, 400 * time.Millisecond, time.Second, 90 * time.Second}
 	errAlpha   = []error{nil, errors.New("x"), errors.New("bad {{.Failed}} 100% sure\nsecond line {red}")}
@@ -259,7 +259,50 @@ func resultSuite() hlib.Suite {
 				}
 			}
 		}
-		r.Sample("counts {0,1,3}^3 x error x six option sets through run.Result.Summary()/Progress()")
+		// several recorded errors (setup and teardown both failing, and more): the summary still renders,
+		// says failed, and carries every message
+		for nerr := 0; nerr <= 4; nerr++ {
+			for _, f := range []uint64{0, 2} {
+				r.Eval()
+				stats := &progress.Stats{}
+				stats.Record(metrics.SuccessResult, int64(time.Millisecond))
+				for i := uint64(0); i < f; i++ {
+					stats.Record(metrics.FailedResult, int64(time.Millisecond))
+				}
+				res := run.NewResult(options.RunOptions{}, v, stats)
+				var msgs []string
+				for i := 0; i < nerr; i++ {
+					msgs = append(msgs, fmt.Sprintf("problem-%d of %d", i+1, nerr))
+					res.AddError(errors.New(msgs[i]))
+				}
+				input := fmt.Sprintf("successful=1 failed=%d with %d recorded errors", f, nerr)
+				r.SampleCase(input)
+				var text string
+				var lg *logged
+				if p, pv := hlib.Catch(func() {
+					res.GetTotals()
+					text = res.Summary().VerifRender(false)
+					lg = logOf(r, res.Summary().Log, input)
+				}); p {
+					r.Fail("C19/render-panics", fmt.Sprintf("result-summary/%s-errors", map[bool]string{true: "several", false: "0-or-1"}[nerr > 1]), fmt.Sprint(pv), input)
+					continue
+				}
+				wantFailed := nerr > 0 || f > 0
+				if strings.Contains(text, "Load Test Failed") != wantFailed {
+					r.Fail("C19/banner", "several-errors", fmt.Sprintf("banner failed=%v, want %v", !wantFailed, wantFailed), input)
+				}
+				for _, m := range msgs {
+					if !strings.Contains(text, m) {
+						r.Fail("C19/summary-error", "message-missing", fmt.Sprintf("error %q is not in the summary", m), input)
+					}
+					if lg != nil && !strings.Contains(lg.Error, m) {
+						r.Fail("C19/log-error", "message-missing", fmt.Sprintf("error %q is not in the structured record (%q)", m, lg.Error), input)
+					}
+				}
+				r.Distinct(fmt.Sprintf("nerr=%d f=%d", nerr, f))
+			}
+		}
+		r.Sample("counts {0,1,3}^3 x error x six option sets through run.Result.Summary()/Progress(); 0-4 recorded errors")
 	}}
 }
 
